@@ -218,6 +218,16 @@ bool comp_init(zckCtx *zck) {
             zck->chunk_auto_max = (zck->buzhash_bitmask + 1) * 4;
             if(zck->chunk_auto_max > zck->chunk_max_size)
                 zck->chunk_auto_max = zck->chunk_max_size;
+            /* The requested limits win over the buzhash defaults: a requested
+             * maximum below the default minimum lowers the minimum, a requested
+             * minimum above the default maximum raises the maximum.  Otherwise
+             * no chunk could ever be ended and zck_write() would never return */
+            if(zck->chunk_auto_min > zck->chunk_auto_max) {
+                if(zck->chunk_auto_max < zck->chunk_min_size)
+                    zck->chunk_auto_max = zck->chunk_auto_min;
+                else
+                    zck->chunk_auto_min = zck->chunk_auto_max;
+            }
             zck_log(ZCK_LOG_DEBUG, "Setting automatic maximum chunk size to %llu",
                     (long long unsigned) zck->chunk_auto_max);
         }
